@@ -984,6 +984,16 @@ func (x *Exec) compileCall(env *Env, e *SCall) Value {
 		return TV{App("fp.isNaN", SBool, argTV(0).T), tBool}
 	case "isInf":
 		return TV{App("fp.isInfinite", SBool, argTV(0).T), tBool}
+	case "bv32":
+		// bv32(x): the 32-bit vector of an integer known to lie in [0,32) (shift counts, bit indices) or a literal
+		a := argTV(0)
+		if a.T.Sort == SBV32 {
+			return a
+		}
+		if v, ok := a.T.IntVal(); ok {
+			return TV{bvLit(v, 32), types.Typ[types.Uint32]}
+		}
+		return TV{bvOfSmallInt(a.T, 32, SBV32), types.Typ[types.Uint32]}
 	case "posinf":
 		return TV{Atom("(_ +oo 11 53)", SF64), tFloat}
 	case "neginf":
@@ -1034,6 +1044,31 @@ func (x *Exec) callSpecFunc(env *Env, sf *SpecFunc, e *SCall) Value {
 	}
 	if sf.Rec {
 		return x.callRecFunc(env, sf, e)
+	}
+	if sf.Ghost {
+		// uninterpreted function of its arguments
+		tenv := &Env{x: x, pkg: env.pkg}
+		if p := x.v.typesPkg(sf.PkgPath); p != nil {
+			tenv.pkg = p
+		}
+		rt := tenv.resolveType(sf.Result)
+		var args []*Term
+		var ps []string
+		for i, p := range sf.Params {
+			a := x.compileTV(env, e.Args[i])
+			want := x.ti.SortOf(tenv.resolveType(p.Type))
+			if a.T.Sort != want {
+				env.fail("argument %d of %s has sort %s, want %s", i, sf.Name, a.T.Sort, want)
+			}
+			args = append(args, a.T)
+			ps = append(ps, string(want))
+		}
+		name := "g_" + sf.Name
+		x.declareFun(name, fmt.Sprintf("(declare-fun %s (%s) %s)", name, strings.Join(ps, " "), x.ti.SortOf(rt)))
+		if len(args) == 0 {
+			return TV{Atom(name, x.ti.SortOf(rt)), rt}
+		}
+		return TV{App(name, x.ti.SortOf(rt), args...), rt}
 	}
 	ch := env.child()
 	ch.vars = nil
